@@ -217,7 +217,7 @@ theorem fc_eps : (fieldConsts ε).eps = ε := rfl
 /-- halving mode, first part of the body -/
 theorem stepFirst_halving {o : Opts K} {ti te : K} {s : LoopState K} {n : ℕ} (r : Answer K)
     (hdyn : o.dyn = false) (hε : 0 < ε) (hlt : ti < te)
-    (hbound : 100 * ε * 2 ^ o.mSub.toNat ≤ 1) (hinv : InvH o ti te s n) :
+    (hbound : tEpsOf (fieldConsts ε) ti te * 2 ^ o.mSub.toNat ≤ te - ti) (hinv : InvH o ti te s n) :
     match stepFirst (fieldConsts ε) o te (tEpsOf (fieldConsts ε) ti te) s r with
     | .inl e => ∀ sf, e ≠ .ended sf ∧ e ≠ .exhausted sf
     | .inr (s', true) => s'.t = te
@@ -233,28 +233,34 @@ theorem stepFirst_halving {o : Opts K} {ti te : K} {s : LoopState K} {n : ℕ} (
     by_contra hc
     have : s.dt * 2 ^ s.subStep ≤ 0 := mul_nonpos_of_nonpos_of_nonneg (not_lt.mp hc) h2pos.le
     linarith
-  have htEps : tEpsOf (fieldConsts ε) ti te = (te - ti) * 100 * ε := rfl
-  have htEpspos : 0 < (te - ti) * 100 * ε := by positivity
+  have htEps : tEpsOf (fieldConsts ε) ti te = max (max |ti| |te|) (te - ti) * 100 * ε := by
+    unfold tEpsOf
+    rw [cmax_eq_max, cmax_eq_max]
+    rfl
+  have htEpspos : 0 < tEpsOf (fieldConsts ε) ti te := by
+    rw [htEps]
+    have : 0 < max (max |ti| |te|) (te - ti) := lt_of_lt_of_le hpos (le_max_right _ _)
+    positivity
   -- the time step is not smaller than the end tolerance
-  have hdtge : (te - ti) * 100 * ε ≤ s.dt := by
+  have hdtge : tEpsOf (fieldConsts ε) ti te ≤ s.dt := by
     have hk : s.subStep ≤ o.mSub.toNat := by
       have : (s.subStep : Int) < o.mSub := hsub
       omega
     have hpow : (2 : K) ^ s.subStep ≤ 2 ^ o.mSub.toNat := pow_le_pow_right₀ (by norm_num) hk
-    have h100 : 0 ≤ 100 * ε := by positivity
-    have h1 : 100 * ε * 2 ^ s.subStep ≤ 1 := le_trans (mul_le_mul_of_nonneg_left hpow h100) hbound
-    calc (te - ti) * 100 * ε = s.dt * (100 * ε * 2 ^ s.subStep) := by rw [← hdt]; ring
-      _ ≤ s.dt * 1 := mul_le_mul_of_nonneg_left h1 hdtpos.le
-      _ = s.dt := mul_one _
+    have h1 : tEpsOf (fieldConsts ε) ti te * 2 ^ s.subStep ≤ s.dt * 2 ^ s.subStep := by
+      rw [hdt]
+      exact le_trans (mul_le_mul_of_nonneg_left hpow htEpspos.le) hbound
+    exact le_of_mul_le_mul_right h1 h2pos
+  generalize tEpsOf (fieldConsts ε) ti te = tEps at htEpspos hdtge ⊢
   unfold stepFirst
   simp only [hdyn, Bool.false_eq_true, if_false]
   cases hr : r.first with
   | true =>
-    simp only [if_true, fc_abs, htEps]
+    simp only [if_true, fc_abs]
     by_cases hn' : n = 1
     · -- last step: t + dt = te
       have hte : te - (s.t + s.dt) = 0 := by rw [hn'] at hn; push_cast at hn; linarith
-      have : decide (|te - (s.t + s.dt)| < (te - ti) * 100 * ε) = true := by
+      have : decide (|te - (s.t + s.dt)| < tEps) = true := by
         rw [hte, abs_zero]; exact decide_eq_true htEpspos
       simp only [this, Bool.true_or]
       linarith
@@ -271,7 +277,7 @@ theorem stepFirst_halving {o : Opts K} {ti te : K} {s : LoopState K} {n : ℕ} (
         calc s.dt = 1 * s.dt := (one_mul _).symm
           _ ≤ _ := mul_le_mul_of_nonneg_right hn1' hdtpos.le
       have hnonneg : 0 ≤ te - (s.t + s.dt) := le_trans hdtpos.le hge
-      have h1 : decide (|te - (s.t + s.dt)| < (te - ti) * 100 * ε) = false := by
+      have h1 : decide (|te - (s.t + s.dt)| < tEps) = false := by
         rw [abs_of_nonneg hnonneg]
         exact decide_eq_false (not_lt.mpr (le_trans hdtge hge))
       have h2 : decide (te < s.t + s.dt) = false := decide_eq_false (by linarith)
@@ -319,7 +325,7 @@ theorem stepSecond_halving {o : Opts K} {ti te : K} {s s0 : LoopState K} {n n0 :
 
 theorem body_halving {o : Opts K} {ti te : K} {s : LoopState K} {n : ℕ} (r : Answer K)
     (hdyn : o.dyn = false) (hε : 0 < ε) (hlt : ti < te)
-    (hbound : 100 * ε * 2 ^ o.mSub.toNat ≤ 1) (hinv : InvH o ti te s n) :
+    (hbound : tEpsOf (fieldConsts ε) ti te * 2 ^ o.mSub.toNat ≤ te - ti) (hinv : InvH o ti te s n) :
     match body (fieldConsts ε) o te (tEpsOf (fieldConsts ε) ti te) s r with
     | .inl e => ∀ sf, e ≠ .ended sf ∧ e ≠ .exhausted sf
     | .inr (s', true) => s'.t = te
@@ -341,7 +347,7 @@ theorem body_halving {o : Opts K} {ti te : K} {s : LoopState K} {n : ℕ} (r : A
       exact stepSecond_halving (s0 := s) hdyn hinv1 hmu
 
 theorem loop_halving {o : Opts K} {ti te : K} (hdyn : o.dyn = false) (hε : 0 < ε) (hlt : ti < te)
-    (hbound : 100 * ε * 2 ^ o.mSub.toNat ≤ 1) (script : List (Answer K)) :
+    (hbound : tEpsOf (fieldConsts ε) ti te * 2 ^ o.mSub.toNat ≤ te - ti) (script : List (Answer K)) :
     ∀ (s : LoopState K) (n : ℕ), InvH o ti te s n →
       (∀ sf, loop (fieldConsts ε) o te (tEpsOf (fieldConsts ε) ti te) script s = .ended sf → sf.t = te) ∧
       (mu o s n ≤ script.length →
@@ -397,6 +403,15 @@ theorem loop_halving {o : Opts K} {ti te : K} (hdyn : o.dyn = false) (hε : 0 < 
         refine ⟨this.1, fun hlen => this.2 ?_⟩
         simp at hlen
         omega
+
+theorem initState_invH {o : Opts K} {ti te : K} (hm : 1 ≤ o.mSub) :
+    InvH o ti te (initState (fieldConsts ε) ti te) 1 := by
+  refine ⟨⟨le_refl _, ?_⟩, ?_, ?_⟩
+  · simp [initState]
+  · simp [initState]
+  · show Int.ofNat 0 < o.mSub
+    have : Int.ofNat 0 = 0 := rfl
+    omega
 
 /-! ### dynamic time step scaling -/
 
